@@ -95,13 +95,13 @@ func Nat(g *G, nprog, per int) []Program {
 				if g.R.Intn(4) == 0 { // very unbalanced
 					y = g.words(1 + g.R.Intn(3))
 				}
-				g.Emit(M{"op": "N.mul", "x": x, "y": y, "zlen": g.Pick(0, 0, 5, 400)})
+				g.Emit(M{"op": "N.mul", "x": x, "y": y, "zlen": g.Pick(0, 0, 5, 400), "zalias": g.PickS("", "", "", "x", "y")})
 			case k < 45:
-				g.Emit(M{"op": "N.sqr", "x": g.words(g.natLen()), "zlen": g.Pick(0, 0, 5, 400)})
+				g.Emit(M{"op": "N.sqr", "x": g.words(g.natLen()), "zlen": g.Pick(0, 0, 5, 400), "zalias": g.PickS("", "", "x")})
 			case k < 65: // division, random
 				v := g.words(g.natLen())
 				u := g.words(len(v) + g.R.Intn(len(v)+3))
-				g.Emit(M{"op": "N.div", "u": u, "v": v, "zlen": g.Pick(0, 0, 5, 400)})
+				g.Emit(M{"op": "N.div", "u": u, "v": v, "zlen": g.Pick(0, 0, 5, 400), "zalias": g.PickS("", "", "v", "u", "u2")})
 			case k < 85: // exact and nearly exact quotients: u = q*v (+ r), patterned v (forces quotient-digit correction and add-back)
 				v := g.words(2 + g.R.Intn(40))
 				q := g.words(1 + g.R.Intn(40))
@@ -113,7 +113,7 @@ func Nat(g *G, nprog, per int) []Program {
 					r := new(big.Int).Sub(wordsToBig(v), big.NewInt(1))
 					u.Add(u, r)
 				}
-				g.Emit(M{"op": "N.div", "u": bigToWords(u), "v": v, "zlen": g.Pick(0, 5, 400)})
+				g.Emit(M{"op": "N.div", "u": bigToWords(u), "v": v, "zlen": g.Pick(0, 5, 400), "zalias": g.PickS("", "", "v", "v", "u", "u2")})
 			default: // long divisors: recursive division (>= 100 words)
 				n := 100 + g.R.Intn(60)
 				if g.Thor && g.R.Intn(3) == 0 {
@@ -129,7 +129,7 @@ func Nat(g *G, nprog, per int) []Program {
 				} else {
 					u = g.words(n + g.R.Intn(n+20))
 				}
-				g.Emit(M{"op": "N.div", "u": u, "v": v, "zlen": g.Pick(0, 5, 800)})
+				g.Emit(M{"op": "N.div", "u": u, "v": v, "zlen": g.Pick(0, 5, 800), "zalias": g.PickS("", "", "v", "u", "u2")})
 			}
 		}
 		pr := g.Flush("nat")
